@@ -12,6 +12,10 @@ CHECKS = {
    technique="property-based testing (rapid) of lines built from components against the construction-known fields + exhaustive PRI 0..200 and cut-boundary enumeration",
    text="Lines are rendered from generated components, parsed through sysloginput.Config.NewParser, and every field must equal its component; PRI 0..200 enumerated under two level mappings; messages of limit-8..limit+8 bytes for every rune width/alignment enumerated, rapid cases around the message and record limits at scaled (64/200/1000 B) and production (1 MiB) limits; overflow cut must be the longest rune-aligned prefix and be counted; input counters must grow by exactly one record and len(input) bytes per Parse call.",
    note="defs.InputLogMaxMessageBytes/RecordBytes are package variables scaled by the harness keeping MaxRecord = MaxMessage+256; about 1% of cases (20% in thorough) use the production 1 MiB limit. Messages that are not valid UTF-8 are only checked for the length bound and the overflow count (documented clean-up may strip invalid bytes)."),
+ "C10": dict(engine="c10serial", category="exploration", design="§3 C10",
+   technique="property-based testing (rapid) with an independent strict MessagePack decoder and a reference inline/unescape implementation; exhaustive value lengths across every length-class boundary",
+   text="Generated schemas (1-24 fields, reserved slots), environment/hidden sets and rewrite chains are loaded through the real YAML config path; records with values at and around 15/16, 31/32, 255/256, 65535/65536 bytes (and up to 70000) of ASCII, arbitrary bytes and all escape forms are serialized by 1-3 serializers in sequence; each output must decode (own strict decoder, no trailing bytes) to the timestamp, exactly the non-empty non-masked fields, the complete environment map, and the reference rewrite results; the record itself must stay unchanged.",
+   note="Record size is kept below the serializer's documented buffer (2x InputLogMaxRecordBytes, scaled to 400 KB); over-size records belong to C07. Timestamps are limited to the EventTime range (uint32 seconds)."),
 }
 
 NOT_YET = {}
